@@ -11,9 +11,23 @@ use std::collections::BTreeSet;
 #[derive(Clone, Debug, Serialize, Deserialize)]
 pub enum Case {
     /// finite bound [lower, upper] on integer variable 5 of an instance with ids [9, 5, 2]
-    Range { lower: X, upper: X, brute_force: bool },
+    /// `pre_fix`: a real `partial_evaluate({id: value})` is run first (history: the variable, or another one, was fixed)
+    Range {
+        lower: X,
+        upper: X,
+        brute_force: bool,
+        #[serde(default)]
+        pre_fix: Option<(u64, X)>,
+    },
     /// error conditions: kind / bound shape / unknown id
-    Error { what: String, kind: i32, bound: Option<(X, X)>, id: u64 },
+    Error {
+        what: String,
+        kind: i32,
+        bound: Option<(X, X)>,
+        id: u64,
+        #[serde(default)]
+        pre_fix: Option<(u64, X)>,
+    },
     /// infinite bound, run in an isolated subprocess
     Infinite { lower: X, upper: X },
     /// log_encode called twice on the same variable, the bound changed in between
@@ -79,15 +93,27 @@ fn complete_sequence(coefs: &[u64], w: u64) -> bool {
     sum == w
 }
 
+/// History step: the SDK's own `partial_evaluate` fixes one variable (sets its substituted value and
+/// rewrites the functions). `false` when the SDK refuses the step (not the subject here).
+fn apply_pre_fix(msg: &mut v1::Instance, id: u64, value: f64) -> bool {
+    matches!(sdk(|| msg.partial_evaluate(&mk_state(&[(id, value)])).map(|_| ()).map_err(|e| format!("{e:#}"))), Ok(Ok(())))
+}
+
 pub fn check_case(l: &mut Local, case: &Case) {
     l.evaluations += 1;
     l.transitions += 1;
     match case {
-        Case::Range { lower, upper, brute_force } => {
+        Case::Range { lower, upper, brute_force, pre_fix } => {
             let (lo, up) = (lower.0, upper.0);
             let il = lo.ceil();
             let iu = up.floor();
             let mut msg = instance(KIND_INTEGER, Some((lo, up)));
+            if let Some((fid, fv)) = pre_fix {
+                if !apply_pre_fix(&mut msg, *fid, fv.0) {
+                    return;
+                }
+                l.bump("after_partial_evaluate", 1);
+            }
             let before = msg.clone();
             let r = sdk(|| msg.log_encode(ENC_ID).map_err(|e| format!("{e:#}")));
             let r = match r {
@@ -203,8 +229,14 @@ pub fn check_case(l: &mut Local, case: &Case) {
                 );
             }
         }
-        Case::Error { what, kind, bound, id } => {
+        Case::Error { what, kind, bound, id, pre_fix } => {
             let mut msg = instance(*kind, bound.map(|(a, b)| (a.0, b.0)));
+            if let Some((fid, fv)) = pre_fix {
+                if !apply_pre_fix(&mut msg, *fid, fv.0) {
+                    return;
+                }
+                l.bump("after_partial_evaluate", 1);
+            }
             let before = msg.clone();
             l.outcome(what);
             l.nontrivial += 1;
@@ -348,7 +380,7 @@ pub fn run(ctx: &Ctx) -> Finish {
                     if w > 64 && !t && (a + b + k + wi) % 5 != 0 {
                         continue;
                     }
-                    let case = Case::Range { lower: X(*lo as f64 - fl), upper: X((*lo + w) as f64 + fu), brute_force: true };
+                    let case = Case::Range { lower: X(*lo as f64 - fl), upper: X((*lo + w) as f64 + fu), brute_force: true, pre_fix: None };
                     if k == 2 && a == 1 && b == 2 && ctx.want_sample(wi as u64) {
                         l.samples.push((wi as u64, json!(case)));
                     }
@@ -362,10 +394,23 @@ pub fn run(ctx: &Ctx) -> Finish {
         for lo in [-7.0, 0.0, 5.0] {
             for (a, b) in [(0.2, 0.8), (0.5, 0.5), (0.01, 0.99), (0.75, 0.25)] {
                 if a <= b {
-                    check_case(l, &Case::Range { lower: X(lo + a), upper: X(lo + b), brute_force: true });
+                    check_case(l, &Case::Range { lower: X(lo + a), upper: X(lo + b), brute_force: true, pre_fix: None });
                 }
             }
-            check_case(l, &Case::Range { lower: X(lo), upper: X(lo), brute_force: true });
+            check_case(l, &Case::Range { lower: X(lo), upper: X(lo), brute_force: true, pre_fix: None });
+        }
+    });
+    // history: the encoded variable (or another one) was fixed by a real partial_evaluate first;
+    // the encoding is a function of kind and bound only
+    ctx.par(130, |l, wi| {
+        let w = wi as i64;
+        for lo in [-7i64, 0, 5] {
+            l.states += 1;
+            for (fid, fv) in [(ENC_ID, lo as f64), (ENC_ID, (lo + w) as f64), (ENC_ID, (lo + w / 2) as f64), (9, 0.5)] {
+                for (fl, fu) in [(0.0, 0.0), (0.25, 0.5)] {
+                    check_case(l, &Case::Range { lower: X(lo as f64 - fl), upper: X((lo + w) as f64 + fu), brute_force: true, pre_fix: Some((fid, X(fv))) });
+                }
+            }
         }
     });
     // second call on the same variable, with the same and with a changed bound
@@ -385,7 +430,7 @@ pub fn run(ctx: &Ctx) -> Finish {
         for w in (ci as u64 * chunk + 1)..=((ci as u64 + 1) * chunk).min(big) {
             for lo in [0i64, -(1 << 20), (1 << 20) - w as i64] {
                 l.states += 1;
-                check_case(l, &Case::Range { lower: X(lo as f64), upper: X((lo + w as i64) as f64), brute_force: false });
+                check_case(l, &Case::Range { lower: X(lo as f64), upper: X((lo + w as i64) as f64), brute_force: false, pre_fix: None });
             }
         }
     });
@@ -406,7 +451,11 @@ pub fn run(ctx: &Ctx) -> Finish {
             ("bound-upper-nan", KIND_INTEGER, Some((0.0, nan)), ENC_ID),
         ];
         for (what, kind, bound, id) in errs {
-            check_case(l, &Case::Error { what: what.to_string(), kind, bound: bound.map(|(a, b)| (X(a), X(b))), id });
+            check_case(l, &Case::Error { what: what.to_string(), kind, bound: bound.map(|(a, b)| (X(a), X(b))), id, pre_fix: None });
+            // the same condition after the variable (or another one) was fixed by partial evaluation
+            for pf in [(ENC_ID, 1.0), (9, 0.5)] {
+                check_case(l, &Case::Error { what: what.to_string(), kind, bound: bound.map(|(a, b)| (X(a), X(b))), id, pre_fix: Some((pf.0, X(pf.1))) });
+            }
         }
         let inf = f64::INFINITY;
         for (lo, up) in [(0.0, inf), (-inf, 5.0), (-inf, inf), (0.5, inf)] {
@@ -416,7 +465,7 @@ pub fn run(ctx: &Ctx) -> Finish {
     ctx.assume("All 2^n bit patterns are covered through the subset-sum set of the returned coefficients (dynamic programming over the exact integer coefficients is the same set as enumerating the patterns); for widths <= 64 the SDK's own Linear::evaluate is additionally run on every pattern.");
     Finish {
         level: "model_checking",
-        rule: "every width 0..=W x 8 lower ends x fractional offsets on both ends by brute force over all bit patterns; every width up to 2^21 (quick 2^17) at three lower ends through the complete-sequence criterion (cross-validated against brute force on all widths <= W); registration of the fresh binaries; every error condition, the infinite bounds in an rlimit'd subprocess; non-trivial = width > 0 or an error condition".into(),
+        rule: "every width 0..=W x 8 lower ends x fractional offsets on both ends by brute force over all bit patterns; every width up to 2^21 (quick 2^17) at three lower ends through the complete-sequence criterion (cross-validated against brute force on all widths <= W); registration of the fresh binaries; widths 0..=129 and every error condition again after a real partial_evaluate fixed the encoded variable (at either end / the middle of its range) or another variable; a second call on the same variable; every error condition, the infinite bounds in an rlimit'd subprocess; non-trivial = width > 0 or an error condition".into(),
         bounds: json!({"brute_force_width_max": wmax, "criterion_width_max": big, "lower_ends": ["-2^20","-4097","-7","-1","0","1","5","2^20-w"], "fractional_offsets": fr}),
         exhaustive: true,
     }
